@@ -811,7 +811,7 @@ class Interp:
             if full in self.native and not callable(self.native[full]):
                 return self.native[full]
             return ModuleRef(full)
-        if isinstance(obj, (str, list, dict, set, tuple)):
+        if isinstance(obj, (str, bytes, list, dict, set, tuple, frozenset)):
             return ("pymethod", obj, attr)
         if isinstance(obj, OrdInt):
             raise AnalysisError("CARD", f"attribute {attr} of ordinal {obj.tag}", where)
@@ -879,13 +879,13 @@ class Interp:
                         "sort", "reverse", "setdefault") and isinstance(obj, (list, set, dict)) \
                     and getattr(obj, "_frozen", False):
                 raise AbsMutation(f"{attr}() on an input container ({src(n)})", where)
-            if isinstance(obj, str) and attr in ("startswith", "endswith", "lower", "upper",
-                                                 "replace", "strip", "split", "join", "casefold",
-                                                 "find", "format", "isdigit", "count"):
+            if isinstance(obj, (str, bytes)) and attr in _STR_METHODS:
+                if attr == "join":
+                    args = [list(self.iterate(args[0]))]
                 try:
-                    return getattr(obj, attr)(*args)
-                except TypeError as exc:
-                    raise AbsRaise(f"TypeError at {src(n)}", where) from exc
+                    return getattr(obj, attr)(*args, **kwargs)
+                except (TypeError, ValueError, UnicodeError) as exc:
+                    raise AbsRaise(f"{type(exc).__name__} at {src(n)}: {exc}", where) from exc
             if isinstance(obj, list) and attr == "sort":
                 key = kwargs.get("key")
                 seq = list(obj)
@@ -1166,6 +1166,11 @@ class Interp:
         raise AnalysisError("ABSINT", "key function outside fragment")
 
 
+_STR_METHODS = {"startswith", "endswith", "lower", "upper", "replace", "strip", "lstrip", "rstrip",
+                "split", "rsplit", "join", "casefold", "find", "rfind", "index", "format", "isdigit",
+                "isalpha", "isalnum", "isspace", "count", "encode", "decode", "title", "capitalize",
+                "partition", "rpartition", "splitlines", "zfill", "isidentifier", "isupper",
+                "islower", "isnumeric", "removeprefix", "removesuffix"}
 _MISSING = object()
 _BUILTINS = {"open", "setattr", "getattr", "dir", "round", "print", "reversed", "hash", "id", "len", "any", "all", "sum", "next", "isinstance", "list", "tuple", "set", "sorted",
              "str", "bool", "int", "min", "max", "enumerate", "zip", "range", "hasattr",
